@@ -109,6 +109,92 @@ def structural_facts(B, bb):
     return out
 
 
+def edge_fact(B, d, succ):
+    """the fact established by leaving switch block d through its edge to succ, or None"""
+    t = B.term(d)
+    if t['k'] != 'switch' or t['discr']['k'] not in ('copy', 'move'):
+        return None
+    if t.get('discr_ty') == 'bool':
+        false_t = [tb for v, tb in t['targets'] if v == '0']
+        one_t = [tb for v, tb in t['targets'] if v == '1']
+        true_t = one_t[0] if one_t else t['otherwise']
+        if len(false_t) != 1 or false_t[0] == true_t or succ not in (true_t, false_t[0]):
+            return None
+        desc, truth = sdesc_operand(B, t['discr']), succ == true_t
+        while desc.startswith('Not(') and desc.endswith(')'):
+            desc, truth = desc[4:-1], not truth
+        return canon_fact(desc, truth)
+    dl = op_local(t['discr'])
+    src = None
+    for st in B.blocks[d]['stmts']:
+        if st['k'] == 'assign' and st['place']['l'] == dl and st['rv']['k'] == 'discr':
+            src = st['rv']['place']
+    vn = t.get('variants') or {}
+    names = {int(k): v for k, v in vn.items() if k != '__enum'}
+    if src is None or not names or vn.get('__enum', '').startswith('std::ops::ControlFlow'):
+        return None
+    desc = sdesc_place(B, src)
+    for v, tb in t['targets']:
+        if tb == succ:
+            return desc, names.get(int(v), v)
+    if succ == t['otherwise']:
+        listed = {int(v) for v, tb in t['targets']}
+        rest = [n for k, n in names.items() if k not in listed]
+        if len(rest) == 1:
+            return desc, rest[0]
+    return None
+
+
+def _trivial_stmts(B, blk):
+    """only storage markers and assignments of constants (the `()` value of an `if` without else)"""
+    for st in B.blocks[blk]['stmts']:
+        if st['k'] == 'setdiscr':
+            return False
+        if st['k'] == 'assign' and not (st['rv']['k'] == 'use' and st['rv']['op']['k'] == 'const') and not (st['rv']['k'] == 'aggregate' and not st['rv'].get('ops')):
+            return False
+    return True
+
+
+def _edge_atoms(B, p, j, depth=0):
+    """facts of the branch edges that lead (through fall-through blocks only) into the edge p -> j, or None if some path is not a plain branch edge"""
+    k = B.term(p)['k']
+    if k == 'switch':
+        f = edge_fact(B, p, j)
+        return None if f is None else {'%s=%s' % f}
+    if k != 'goto' or depth > 4 or not _trivial_stmts(B, p):
+        return None
+    out = set()
+    for q in B.preds.get(p, []):
+        if B.dominates(p, q):
+            return None
+        a = _edge_atoms(B, q, p, depth + 1)
+        if a is None:
+            return None
+        out |= a
+    return out or None
+
+
+def disjunctive_facts(B, bb):
+    """conditions of the form `a || b` on the way to bb: a join block that dominates bb and whose every incoming edge comes (through fall-through blocks) straight
+    from branch edges with describable facts — the MIR shape of short-circuit `||` / negated `&&`, or-patterns and `matches!` — contributes the alternative
+    `fact1|fact2|..`.  Facts fixed by a single edge are already reported by structural_facts (dominance)."""
+    out = []
+    for j in sorted(B.dom[bb]):
+        ps = B.preds.get(j, [])
+        if len(ps) < 2:
+            continue
+        atoms = set()
+        for p in ps:
+            a = None if B.dominates(j, p) else _edge_atoms(B, p, j)
+            if a is None:
+                atoms = None
+                break
+            atoms |= a
+        if atoms and len(atoms) > 1:
+            out.append(('|'.join(sorted(atoms)), 'either'))
+    return out
+
+
 def collect_err_guards(F, cg):
     res = {}
     for name in cg.names():
